@@ -1,91 +1,102 @@
 (** C02, layer 3: every path the combinator model ([Combinator.combine], C28) returns on segments
     produced by beaconing over a well-formed topology is the rendering of a well-formed
-    provenance path whose interface list is the path metadata — PROVED HERE FOR PATHS WITHOUT
-    PEERING SLICES (core-only, up-core-down, full segments and shortcuts at a common AS), and
-    composed with [C02_forward_prov]: such a path is accepted hop by hop and delivered.
+    provenance path whose interface list is the path metadata ([C02_combine_prov]: core-only,
+    up-core-down, full segments, shortcuts at a common AS, and paths over a peering link).
+    Composed with [C02_forward_prov] ([C02_paths_forward]): the packet a host builds from such a
+    path is accepted hop by hop, crosses exactly the interfaces of the path metadata and is delivered.
 
-    NOT PROVED: the same for paths over a peering link ([C02_combine_prov_statement] below is the
-    full statement, kept as a Definition).  Side conditions: source <> destination (for equal
-    ASes segfetcher.Pather.GetPaths answers with the empty path and never calls the combinator;
-    the combinator itself would return up-then-down loops) and at most 64 hop fields (the header's limit).
-    That the source AS is not the AS of a later hop field and the destination AS not of an
-    earlier one ([wf_prov_b] asks for it) is derived from the combinator's own loop filter
-    (no AS three times in the interface list, Proofs/ProvLoopFree.v).
+    Side conditions: source <> destination (for equal ASes segfetcher.Pather.GetPaths answers with
+    the empty path and never calls the combinator; the combinator itself would return
+    up-then-down loops) and at most 64 hop fields (the header's limit).  That the source AS is
+    not the AS of a later hop field and the destination AS not of an earlier one ([wf_prov_b] asks
+    for it) is derived from the combinator's own loop filter (no AS three times in the interface
+    list, Proofs/ProvLoopFree.v).
 
     Reading guide (Model/CombProv.v).  [beaconed mac t core s]: what iterating the extender
     guarantees for a segment — [validate], [wf_fields], every entry's hop field is the MAC under
-    its AS key over beta_i (C22) and the uint32 timestamp, peer hop fields over beta_{i+1}, and the
-    egress of entry i is a child (core) link of the topology to entry i+1's ingress; a core
-    segment has at least two entries.  [pkt_of_path cp pp]: the packet a host builds from the
-    combinator's slices (CurrINF = CurrHF = 0).  [prov_of es]: one provenance slice per edge of
-    the combinator's solution = the entries of its segment from the cut index on. *)
+    its AS key over beta_i (C22) and the uint32 timestamp, peer hop fields over beta_{i+1} with the
+    same egress and a peering link of the topology as ingress, and the egress of entry i is a
+    child (core) link of the topology to entry i+1's ingress; a core segment has at least two
+    entries.  It is a predicate on the segments of Model/Segment.v, not derived here from iterating
+    the extender model (C23).  [pkt_of_path cp pp]: the packet a host builds from the combinator's
+    slices (CurrINF = CurrHF = 0).  The witness: one provenance slice per edge of the combinator's
+    solution = the entries of its segment from the cut index on ([prov_of]); for a solution over
+    a peering link the two slices meet at the two peer hop fields ([pair_prov]). *)
 From Coq Require Import List NArith Bool Arith Lia.
 From Scion Require Import Lib.Check Model.Router Model.Network Model.Prov.
 From Scion Require Import Model.Segment Model.SegID Model.CombSpec Model.Combinator Model.CombProv.
 From Scion Require Import Proofs.CombinatorRender Proofs.CombinatorPaths.
-From Scion Require Import Proofs.ProvFacts Proofs.Forward Proofs.CombineProv Proofs.CombineProvMain.
+From Scion Require Import Proofs.ProvFacts Proofs.Forward Proofs.CombineProv Proofs.CombineProvMain
+  Proofs.CombinePeerMain.
 Import ListNotations.
 Import CombProv.
 Local Open Scope N_scope.
 
-(** the full statement (peering included): not proved *)
-Definition C02_combine_prov_statement : Prop :=
-  forall mac t src dst ups cores downs fa ps cp pp,
-    Nw.wf_topo t = true ->
-    Forall (beaconed mac t false) (Cb.segs_of ups) ->
-    Forall (beaconed mac t true) (Cb.segs_of cores) ->
-    Forall (beaconed mac t false) (Cb.segs_of downs) ->
-    Cb.combine src dst ups cores downs fa = Cb.Done ps -> In cp ps ->
-    src <> dst -> (length (path_ias cp) <= 64)%nat ->
-    exists p : Pv.prov,
-      Pv.wf_prov_b (macq_of mac) t p = true /\
-      Pv.render p pp 0 false = pkt_of_path cp pp /\
-      Pv.interfaces p = Cb.p_ifs cp.
-
-Lemma no_peering_edges es : no_peering (path_of es) -> Forall nopeer es.
+(** the provenance path of a path of the combinator, with everything the forwarding theorem
+    needs to know about it *)
+Lemma combine_prov_all mac t src dst ups cores downs fa ps cp :
+  Nw.wf_topo t = true ->
+  Forall (beaconed mac t false) (Cb.segs_of ups) ->
+  Forall (beaconed mac t true) (Cb.segs_of cores) ->
+  Forall (beaconed mac t false) (Cb.segs_of downs) ->
+  Cb.combine src dst ups cores downs fa = Cb.Done ps -> In cp ps ->
+  src <> dst -> (length (path_ias cp) <= 64)%nat ->
+  exists p : Pv.prov,
+    Pv.wf_prov_b (macq_of mac) t p = true /\
+    (forall pp, Pv.render p pp 0 false = pkt_of_path cp pp) /\
+    Pv.interfaces p = Cb.p_ifs cp /\
+    (forall pp, hosts_ok t src dst pp -> Pv.endpoints_ok t p pp = true) /\
+    (forall now, path_unexpired now cp -> Pv.all_unexpired now p = true).
 Proof.
-  unfold no_peering. cbn [path_of Cb.p_slices]. rewrite !Forall_forall. intros H e He.
-  specialize (H (edge_slice e) (in_map _ _ _ He)).
-  cbn [edge_slice Cb.sl_info edge_info Cb.i_peer] in H. unfold nopeer.
-  destruct (Cb.e_peer e); [reflexivity|discriminate].
-Qed.
-
-(** the statement restricted to paths without peering slices *)
-Theorem C02_combine_prov_partial :
-  forall mac t src dst ups cores downs fa ps cp pp,
-    Nw.wf_topo t = true ->
-    Forall (beaconed mac t false) (Cb.segs_of ups) ->
-    Forall (beaconed mac t true) (Cb.segs_of cores) ->
-    Forall (beaconed mac t false) (Cb.segs_of downs) ->
-    Cb.combine src dst ups cores downs fa = Cb.Done ps -> In cp ps ->
-    src <> dst -> (length (path_ias cp) <= 64)%nat ->
-    no_peering cp ->
-    exists p : Pv.prov,
-      Pv.wf_prov_b (macq_of mac) t p = true /\
-      Pv.render p pp 0 false = pkt_of_path cp pp /\
-      Pv.interfaces p = Cb.p_ifs cp.
-Proof.
-  intros mac t src dst ups cores downs fa ps cp pp Hwt Bu Bc Bd Hc Hin Hsd H64 Hnp.
+  intros Hwt Bu Bc Bd Hc Hin Hsd H64.
   destruct (combine_in _ _ _ _ _ _ _ _ Hc Hin) as (es & Hch & -> & N3).
-  pose proof (no_peering_edges es Hnp) as Np.
-  exists (prov_of es). split; [|split].
-  - apply (chain_wf_prov mac t Hwt ups cores downs src dst es); assumption.
-  - apply (chain_render mac t Hwt ups cores downs src dst es); assumption.
-  - apply (chain_interfaces mac t Hwt ups cores downs src dst es); assumption.
+  destruct (chain_peer_cases mac t Hwt ups cores downs Bu Bc Bd src dst es Hch)
+    as [Np|(e1 & e2 & k1 & k2 & -> & P1 & P2 & T1 & T2)].
+  - exists (prov_of es). split; [|split; [|split; [|split]]].
+    + apply (chain_wf_prov mac t Hwt ups cores downs src dst es); assumption.
+    + intros pp. apply (chain_render mac t Hwt ups cores downs src dst es); assumption.
+    + apply (chain_interfaces mac t Hwt ups cores downs src dst es); assumption.
+    + intros pp. apply (endpoints_of mac t Hwt ups cores downs src dst es); assumption.
+    + intros now. apply (unexpired_of mac t Hwt ups cores downs src dst es); assumption.
+  - exists (pair_prov e1 e2). split; [|split; [|split; [|split]]].
+    + apply (pair_wf_prov mac t Hwt ups cores downs Bu Bc Bd src dst e1 e2 k1 k2); assumption.
+    + intros pp. apply (pair_render mac t Hwt ups cores downs Bu Bc Bd src dst e1 e2 k1 k2); assumption.
+    + apply (pair_interfaces mac t Hwt ups cores downs Bu Bc Bd src dst e1 e2 k1 k2); assumption.
+    + intros pp. apply (pair_endpoints mac t Hwt ups cores downs Bu Bc Bd src dst e1 e2 k1 k2); assumption.
+    + intros now. apply (pair_unexpired mac t Hwt ups cores downs Bu Bc Bd src dst e1 e2 k1 k2); assumption.
 Qed.
-Print Assumptions C02_combine_prov_partial.
 
-(** C02 for the combinator's paths without peering slices: the packet built from the path is
-    forwarded by every router on the way, crosses exactly the interfaces of the path metadata, in
-    that order, and is delivered to the destination host in the destination AS. *)
-Theorem C02_paths_forward_partial :
+(** every path of the combinator over beaconed segments is a well-formed provenance path *)
+Theorem C02_combine_prov :
+  forall mac t src dst ups cores downs fa ps cp pp,
+    Nw.wf_topo t = true ->
+    Forall (beaconed mac t false) (Cb.segs_of ups) ->
+    Forall (beaconed mac t true) (Cb.segs_of cores) ->
+    Forall (beaconed mac t false) (Cb.segs_of downs) ->
+    Cb.combine src dst ups cores downs fa = Cb.Done ps -> In cp ps ->
+    src <> dst -> (length (path_ias cp) <= 64)%nat ->
+    exists p : Pv.prov,
+      Pv.wf_prov_b (macq_of mac) t p = true /\
+      Pv.render p pp 0 false = pkt_of_path cp pp /\
+      Pv.interfaces p = Cb.p_ifs cp.
+Proof.
+  intros mac t src dst ups cores downs fa ps cp pp Hwt Bu Bc Bd Hc Hin Hsd H64.
+  destruct (combine_prov_all mac t src dst ups cores downs fa ps cp Hwt Bu Bc Bd Hc Hin Hsd H64)
+    as (p & W & R & I & _). exists p. auto.
+Qed.
+Print Assumptions C02_combine_prov.
+
+(** C02 for the combinator's paths: the packet built from the path is forwarded by every router on
+    the way, crosses exactly the interfaces of the path metadata, in that order, and is delivered
+    to the destination host in the destination AS. *)
+Theorem C02_paths_forward :
   forall mac t now src dst ups cores downs fa ps cp pp,
     Nw.wf_topo t = true -> Nw.all_up t = true ->
     Forall (beaconed mac t false) (Cb.segs_of ups) ->
     Forall (beaconed mac t true) (Cb.segs_of cores) ->
     Forall (beaconed mac t false) (Cb.segs_of downs) ->
     Cb.combine src dst ups cores downs fa = Cb.Done ps -> In cp ps ->
-    src <> dst -> (length (path_ias cp) <= 64)%nat -> no_peering cp ->
+    src <> dst -> (length (path_ias cp) <= 64)%nat ->
     path_unexpired now cp -> hosts_ok t src dst pp ->
     exists tr rtr d a,
       Pv.walk_from (macq_of mac) t now (pkt_of_path cp pp) (pkt_of_path cp pp) =
@@ -93,21 +104,80 @@ Theorem C02_paths_forward_partial :
       Nw.crossed tr = Cb.p_ifs cp /\
       Nw.find_as t dst = Some a /\ Pv.deliver_target a pp = Some d.
 Proof.
-  intros mac t now src dst ups cores downs fa ps cp pp Hwt Hup Bu Bc Bd Hc Hin Hsd H64 Hnp Hex Hh.
-  destruct (combine_in _ _ _ _ _ _ _ _ Hc Hin) as (es & Hch & -> & N3).
-  pose proof (no_peering_edges es Hnp) as Np.
-  assert (W : Pv.wf_prov_b (macq_of mac) t (prov_of es) = true)
-    by (apply (chain_wf_prov mac t Hwt ups cores downs src dst es); assumption).
-  assert (Rn : Pv.render (prov_of es) pp 0 false = pkt_of_path (path_of es) pp)
-    by (apply (chain_render mac t Hwt ups cores downs src dst es); assumption).
-  assert (If : Pv.interfaces (prov_of es) = Cb.p_ifs (path_of es))
-    by (apply (chain_interfaces mac t Hwt ups cores downs src dst es); assumption).
-  assert (Ep : Pv.endpoints_ok t (prov_of es) pp = true)
-    by (apply (endpoints_of mac t Hwt ups cores downs src dst es); assumption).
-  assert (Ux : Pv.all_unexpired now (prov_of es) = true)
-    by (apply (unexpired_of mac t Hwt ups cores downs src dst es); assumption).
-  destruct (forward_prov mac t now (prov_of es) pp Hwt Hup W Ep Ux) as (tr & rtr & d & a & Wk & Cr & Fa & Dt).
-  destruct Hh as (_ & Dd & _). rewrite Dd in Wk, Fa. rewrite Rn in Wk.
-  exists tr, rtr, d, a. rewrite <- If. auto.
+  intros mac t now src dst ups cores downs fa ps cp pp Hwt Hup Bu Bc Bd Hc Hin Hsd H64 Hex Hh.
+  destruct (combine_prov_all mac t src dst ups cores downs fa ps cp Hwt Bu Bc Bd Hc Hin Hsd H64)
+    as (p & W & R & I & Ep & Ux).
+  destruct (forward_prov mac t now p pp Hwt Hup W (Ep pp Hh) (Ux now Hex)) as (tr & rtr & d & a & Wk & Cr & Fa & Dt).
+  destruct Hh as (_ & Dd & _). rewrite Dd in Wk, Fa. rewrite R in Wk.
+  exists tr, rtr, d, a. rewrite <- I. auto.
 Qed.
-Print Assumptions C02_paths_forward_partial.
+Print Assumptions C02_paths_forward.
+
+(** Non-vacuity of the hypotheses: core AS 10 with two leaves 20 and 30 that also peer with each
+    other (interface 2 on both sides); one up segment of 20 and one down segment of 30, each
+    announcing the peering link, MACed with a toy 6-byte MAC.  Both segments are [beaconed]; the
+    combinator returns the path over the peering link and the path over the core; both satisfy
+    the side conditions of [C02_paths_forward]. *)
+Definition toy6 (k b ts e i g : N) : list N := [k; b mod 256; (b / 256) mod 256; e; i; g].
+Definition ex_t : Nw.topology :=
+  [ Nw.mkAs 10 7 1 [Nw.mkNif 1 R.Child 20 1 0 true; Nw.mkNif 2 R.Child 30 1 0 true] [] 0 0;
+    Nw.mkAs 20 8 1 [Nw.mkNif 1 R.Parent 10 1 0 true; Nw.mkNif 2 R.Peer 30 2 0 true] [] 0 0;
+    Nw.mkAs 30 9 1 [Nw.mkNif 1 R.Parent 10 2 0 true; Nw.mkNif 2 R.Peer 20 2 0 true] [] 0 0 ].
+Definition ex_seg (segid key_leaf leaf core_eg peer_ia : N) : Sg.segment :=
+  let ts := 1000 in
+  let m0 := toy6 7 segid ts 63 0 core_eg in
+  let b1 := N.lxor segid (Sg.mac16 m0) in
+  let m1 := toy6 key_leaf b1 ts 63 1 0 in
+  let b2 := N.lxor b1 (Sg.mac16 m1) in
+  let pm := toy6 key_leaf b2 ts 63 2 0 in
+  Sg.mkSeg ts segid
+    [ Sg.mkAS 10 (Sg.mkHop 0 core_eg 63 m0) 0 1400 [];
+      Sg.mkAS leaf (Sg.mkHop 1 0 63 m1) 1400 1400 [Sg.mkPeer peer_ia 2 (Sg.mkHop 2 0 63 pm) 1400] ].
+Definition ex_up := ex_seg 5 8 20 1 30.
+Definition ex_down := ex_seg 9 9 30 2 20.
+Definition ex_pp : Pv.pparams := Pv.mkPP 20 30 0 0 [10; 0; 0; 2] [10; 0; 0; 1] 8 (Some 4242).
+
+Ltac ex_entry :=
+  unfold entry_ok; repeat split;
+  try (cbv [hop_maced]; eexists; split; [vm_compute; reflexivity|vm_compute; reflexivity]);
+  try (repeat constructor; repeat split;
+       try (cbv [hop_maced]; eexists; split; [vm_compute; reflexivity|vm_compute; reflexivity]);
+       try (vm_compute; reflexivity);
+       try (cbv [link_to]; do 2 eexists; repeat split; vm_compute; reflexivity));
+  try (cbn [nth_error Sg.sg_entries]; cbv [link_to]; do 2 eexists; repeat split; vm_compute; reflexivity);
+  try exact I.
+
+Lemma ex_beaconed segid key leaf eg peer :
+  (segid, key, leaf, eg, peer) = (5, 8, 20, 1, 30) \/ (segid, key, leaf, eg, peer) = (9, 9, 30, 2, 20) ->
+  beaconed toy6 ex_t false (ex_seg segid key leaf eg peer).
+Proof.
+  intros [E|E]; inversion E; subst.
+  - split; [reflexivity|]. split; [reflexivity|]. split; [discriminate|].
+    intros i e H. destruct i as [|[|i]]; [| |destruct i; discriminate]; cbn in H; inversion H; subst e; clear H.
+    + ex_entry.
+    + ex_entry.
+  - split; [reflexivity|]. split; [reflexivity|]. split; [discriminate|].
+    intros i e H. destruct i as [|[|i]]; [| |destruct i; discriminate]; cbn in H; inversion H; subst e; clear H.
+    + ex_entry.
+    + ex_entry.
+Qed.
+
+Example C02_combine_example :
+  let ups := [(1, ex_up)] in let downs := [(2, ex_down)] in
+  Nw.wf_topo ex_t = true /\ Nw.all_up ex_t = true /\
+  Forall (beaconed toy6 ex_t false) (Cb.segs_of ups) /\
+  Forall (beaconed toy6 ex_t false) (Cb.segs_of downs) /\
+  hosts_ok ex_t 20 30 ex_pp /\
+  exists ps, Cb.combine 20 30 ups [] downs true = Cb.Done ps /\
+    map Cb.p_ifs ps = [[(20, 2); (30, 2)]; [(20, 1); (10, 1); (10, 2); (30, 1)]] /\
+    Forall (fun cp => (length (path_ias cp) <= 64)%nat /\ path_unexpired 2000000000000 cp) ps.
+Proof.
+  cbv zeta. split; [reflexivity|]. split; [reflexivity|].
+  split; [repeat constructor; apply ex_beaconed; auto|]. split; [repeat constructor; apply ex_beaconed; auto|].
+  split.
+  { split; [reflexivity|]. split; [reflexivity|]. split; [reflexivity|].
+    do 2 eexists. split; vm_compute; reflexivity. }
+  exists (match Cb.combine 20 30 [(1, ex_up)] [] [(2, ex_down)] true with Cb.Done ps => ps | _ => [] end).
+  split; [vm_compute; reflexivity|]. split; [vm_compute; reflexivity|].
+  vm_compute. repeat constructor.
+Qed.
